@@ -148,11 +148,18 @@ class Case:
 # structure-directed random generator
 # ---------------------------------------------------------------------------
 
-LITS = ["1", "0", "-2", "1.5", "\"s\"", "\"zz\"", "'yy'", "h'00ff'", "#", "#2", "#7.25", "#6.1", "0x1f", "\"a = int\"", "\"; zz\""]
+LITS = ["1", "0", "-2", "1.5", "\"s\"", "\"zz\"", "'yy'", "h'00ff'", "#2", "#7.25", "#6.1", "0x1f", "\"a = int\"", "\"; zz\""]
 CTL_OPS = ["size", "bits", "regexp", "cbor", "within", "and", "lt", "le", "gt", "ge", "eq", "ne", "default"]
-OCCS = ["? ", "* ", "+ ", "2*3 ", "2* ", "*3 ", "?", "*", "+", "0*1 "]
+OCCS = ["? ", "* ", "+ ", "2*3 ", "2* ", "*3 ", "?", "* ", "+", "0*1 "]
 BAREWORDS = ["k", "key", "zz", "int", "a", "u-1", "Int", "t", "b.c"]
 SOCKET_IDS = ["a", "b", "s", "zz", "ext", "g"]
+
+def esafe(f):
+    """a bare group entry (or a member key) that starts with "(" and continues after the matching ")" is taken by the
+    inline-group alternative of group_entry first (PEG ordered choice, C03 territory): parenthesise it once more"""
+    if f and isinstance(f[0], str) and f[0].lstrip().startswith("("):
+        return ["("] + f + [")"]
+    return f
 
 class Gen:
     def __init__(self, rng, rule_names, undef_pool, shadow_pool, p_undef):
@@ -165,8 +172,9 @@ class Gen:
         self.other_params = []
 
     # ---- names ----
-    def pick(self, site, group_ok=False):
+    def pick(self, site):
         rng = self.rng
+        amp = site == "enum_name"            # after "&" the grammar wants a groupname: "$x" is not one, "$$x" is
         if rng.random() < self.p_undef:
             r = rng.random()
             if r < 0.12 and self.shadow_pool:
@@ -175,7 +183,7 @@ class Gen:
                 return Ref("", rng.choice(self.other_params), site)
             return Ref("", rng.choice(self.undef_pool), site)
         opts = ["prelude"] * 3 + ["socket"]
-        plain_rules = [n for n in self.rule_names if not n.startswith("$$")]
+        plain_rules = [n for n in self.rule_names if not n.startswith("$$") and not (amp and n.startswith("$"))]
         if plain_rules:
             opts += ["rule"] * 4
         if self.params:
@@ -189,7 +197,7 @@ class Gen:
             r = N(rng.choice(plain_rules), site)
             r.blank = rng.random() < 0.1
             return r
-        return Ref("$", rng.choice(SOCKET_IDS), site, blank=rng.random() < 0.1)
+        return Ref("$$" if amp else "$", rng.choice(SOCKET_IDS), site, blank=rng.random() < 0.1)
 
     def generic_args(self, d):
         n = self.rng.choice([1, 1, 2])
@@ -293,16 +301,21 @@ class Gen:
                 out.append(" // ")
             n = rng.choice([0, 1, 1, 2, 2, 3])
             for k in range(n):
+                e = self.entry(d, in_map)
                 if k:
-                    out.append(rng.choice([", ", ", ", ", ", ",", " ", ",\n  ", ", ; zz = int\n  "]))
-                out += self.entry(d, in_map)
+                    sep = rng.choice([", ", ", ", ", ", ",", " ", ",\n  ", ", ; zz = int\n  "])
+                    first = next((p for p in e if not (isinstance(p, str) and p == "")), "")
+                    if sep == " " and isinstance(first, str) and first.lstrip().startswith("("):
+                        sep = ", "           # "#6.<t> (x)" / "#2 (x)" would read the next entry as tag content
+                    out.append(sep)
+                out += e
             if n and rng.random() < 0.15:
                 out.append(",")
         return out
 
     def key1(self, d):
         f, level = self.type1(d, "key_arrow")
-        return f if level >= 1 else ["("] + f + [")"]
+        return esafe(f)
 
     def entry(self, d, in_map):
         rng = self.rng
@@ -316,7 +329,7 @@ class Gen:
         site_v = "map_value" if in_map else "array_entry_value"
         if k == "bare":
             f, _ = self.type(d, "group_entry_occ" if occ else ("map_entry_bare" if in_map else "array_entry"))
-            return [occ] + f
+            return [occ] + esafe(f)
         if k == "bareword":
             f, _ = self.type(d, site_v)
             return [occ, rng.choice(BAREWORDS), rng.choice([": ", ":", " : "])] + f
@@ -350,7 +363,7 @@ class Gen:
             return ["("] + self.group(d, True) + [")"]
         if r < 0.75:
             f, _ = self.type(d, "group_rule_occ")
-            return [rng.choice(["? ", "* ", "+ "])] + f
+            return [rng.choice(["? ", "* ", "+ "])] + esafe(f)
         if op == "//=":
             if r < 0.85:
                 f, _ = self.type(d, "group_rule_value")
@@ -358,7 +371,7 @@ class Gen:
             if r < 0.93:
                 f, _ = self.type(d, "group_rule_value")
                 return self.key1(d) + [" => "] + f
-            return self.type(d, "group_rule_bare")[0]
+            return esafe(self.type(d, "group_rule_bare")[0])
         return ["("] + self.group(d, False) + [")"]
 
 FAMILIES = [["a", "A", "$a", "$$a", "a-b", "a.b", "a_b", "@a"], ["g", "$$g", "$g", "G", "g1"], ["b", "$b", "b2", "B"],
@@ -431,35 +444,35 @@ TYPE_CTX = [
     ("choice_first", lambda f, l: (_p(f, l, 1) + [" / int"], 0)),
     ("choice_last", lambda f, l: (["int / tstr / "] + _p(f, l, 1), 0)),
     ("paren", lambda f, l: (["("] + f + [")"], 2)),
-    ("array_entry", lambda f, l: (["["] + f + ["]"], 2)),
-    ("array_second", lambda f, l: (["[int, "] + f + ["]"], 2)),
-    ("array_nocomma", lambda f, l: (["[int "] + f + [" tstr]"], 2)),
-    ("array_occ_star", lambda f, l: (["[* "] + f + ["]"], 2)),
-    ("array_occ_range", lambda f, l: (["[2*3 "] + f + ["]"], 2)),
-    ("array_occ_opt", lambda f, l: (["[?"] + f + ["]"], 2)),
+    ("array_entry", lambda f, l: (["["] + esafe(f) + ["]"], 2)),
+    ("array_second", lambda f, l: (["[int, "] + esafe(f) + ["]"], 2)),
+    ("array_nocomma", lambda f, l: (["[int "] + esafe(f) + [" tstr]"], 2)),
+    ("array_occ_star", lambda f, l: (["[* "] + esafe(f) + ["]"], 2)),
+    ("array_occ_range", lambda f, l: (["[2*3 "] + esafe(f) + ["]"], 2)),
+    ("array_occ_opt", lambda f, l: (["[?"] + esafe(f) + ["]"], 2)),
     ("map_value_bareword", lambda f, l: (["{k: "] + f + ["}"], 2)),
     ("map_value_bareword_opt", lambda f, l: (["{? zz: "] + f + [", * tstr => any}"], 2)),
     ("map_value_text", lambda f, l: (["{\"k\": "] + f + ["}"], 2)),
     ("map_value_int", lambda f, l: (["{1: "] + f + ["}"], 2)),
     ("map_value_arrow", lambda f, l: (["{\"k\" => "] + f + ["}"], 2)),
     ("map_value_cut", lambda f, l: (["{tstr ^ => "] + f + ["}"], 2)),
-    ("map_key_arrow", lambda f, l: (["{"] + _p(f, l, 1) + [" => int}"], 2)),
-    ("map_key_cut", lambda f, l: (["{"] + _p(f, l, 1) + [" ^ => int}"], 2)),
-    ("map_key_occ", lambda f, l: (["{* "] + _p(f, l, 1) + [" => any}"], 2)),
-    ("map_entry_bare", lambda f, l: (["{"] + f + ["}"], 2)),
+    ("map_key_arrow", lambda f, l: (["{"] + esafe(_p(f, l, 1)) + [" => int}"], 2)),
+    ("map_key_cut", lambda f, l: (["{"] + esafe(_p(f, l, 1)) + [" ^ => int}"], 2)),
+    ("map_key_occ", lambda f, l: (["{* "] + esafe(_p(f, l, 1)) + [" => any}"], 2)),
+    ("map_entry_bare", lambda f, l: (["{"] + esafe(f) + ["}"], 2)),
     ("map_second_choice", lambda f, l: (["{k: int // j: "] + f + ["}"], 2)),
-    ("array_second_choice", lambda f, l: (["[int // "] + f + ["]"], 2)),
-    ("inline_group", lambda f, l: (["[("] + f + [")]"], 2)),
-    ("inline_group_occ", lambda f, l: (["[* (int, "] + f + [")]"], 2)),
+    ("array_second_choice", lambda f, l: (["[int // "] + esafe(f) + ["]"], 2)),
+    ("inline_group", lambda f, l: (["[("] + esafe(f) + [")]"], 2)),
+    ("inline_group_occ", lambda f, l: (["[* (int, "] + esafe(f) + [")]"], 2)),
     ("inline_group_map", lambda f, l: (["{(k: "] + f + [")}"], 2)),
-    ("inline_group_nested", lambda f, l: (["[(int, ("] + f + [", tstr))]"], 2)),
+    ("inline_group_nested", lambda f, l: (["[(int, ("] + esafe(f) + [", tstr))]"], 2)),
     ("tag_content", lambda f, l: (["#6.32("] + f + [")"], 2)),
     ("tag_number_type", lambda f, l: (["#6.<"] + f + [">"], 2)),
     ("tag_number_type_content", lambda f, l: (["#6.<int>("] + f + [")"], 2)),
     ("tag_major_content", lambda f, l: (["#6("] + f + [")"], 2)),
     ("tag_any_content", lambda f, l: (["#("] + f + [")"], 2)),
     ("enum_group_value", lambda f, l: (["&(k: "] + f + [")"], 2)),
-    ("enum_group_bare", lambda f, l: (["&("] + f + [")"], 2)),
+    ("enum_group_bare", lambda f, l: (["&("] + esafe(f) + [")"], 2)),
     ("generic_arg_first", lambda f, l: ([Ref("", "pair", "helper"), "<"] + _p(f, l, 1) + [", int>"], 2)),
     ("generic_arg_second", lambda f, l: ([Ref("", "pair", "helper"), "<int, "] + _p(f, l, 1) + [">"], 2)),
     ("generic_arg_unwrap", lambda f, l: (["~", Ref("", "pair", "helper"), "<"] + _p(f, l, 1) + [", int>"], 2)),
@@ -498,13 +511,13 @@ NAME_SITES = [
 RULE_CTX = [
     ("type_rule", "=", [], lambda f, l: f),
     ("type_increment", "/=", [], lambda f, l: f),
-    ("type_rule_generic", "=", ["t"], lambda f, l: ["[t, "] + f + ["]"]),
+    ("type_rule_generic", "=", ["t"], lambda f, l: ["[t, "] + esafe(f) + ["]"]),
     ("group_rule_paren", "=", [], lambda f, l: ["(k: "] + f + [")"]),
-    ("group_rule_occ", "=", [], lambda f, l: ["? "] + f),
-    ("group_increment_bare", "//=", [], lambda f, l: f),
+    ("group_rule_occ", "=", [], lambda f, l: ["? "] + esafe(f)),
+    ("group_increment_bare", "//=", [], lambda f, l: esafe(f)),
     ("group_increment_value", "//=", [], lambda f, l: ["k: "] + f),
-    ("group_increment_key", "//=", [], lambda f, l: _p(f, l, 1) + [" => int"]),
-    ("group_increment_generic", "//=", ["t"], lambda f, l: ["(t, "] + f + [")"]),
+    ("group_increment_key", "//=", [], lambda f, l: esafe(_p(f, l, 1)) + [" => int"]),
+    ("group_increment_generic", "//=", ["t"], lambda f, l: ["(t, "] + esafe(f) + [")"]),
 ]
 
 HELPERS = [Rule("pair", "=", B("[`x`, `y`]"), ["x", "y"])]
@@ -517,7 +530,7 @@ def plant_case(name_site, ctx_chain, rule_ctx, names, cls, where="middle"):
         frag, level = cb(frag, level)
     if len(names) > 1:
         f2, l2 = sb(N(names[1], "plant2:" + sl))
-        frag, level = ["["] + frag + [", "] + f2 + ["]"], 2
+        frag, level = ["["] + esafe(frag) + [", "] + f2 + ["]"], 2
     rl, op, params, rb = rule_ctx
     target = Rule("r", op, rb(frag, level), params)
     other = Rule("d1", "=", B("`int`"))
@@ -538,6 +551,8 @@ def catalogue(rng, n_deep):
                 where = ["first", "middle", "last"][(si + ci + ri) % 3]
                 cases.append(plant_case(ns, chain, rc, ["zz"], "plant-undef", where))
                 filler = ["d1", "int", "t" if rc[2] else "mime-message", "$zz", "pair"][(ci + ri) % 5]
+                if filler == "$zz" and ns[0].startswith("enum"):
+                    filler = "$$zz"
                 cases.append(plant_case(ns, chain, rc, [filler], "plant-resolved", where))
     # all ordered pairs of contexts for the plain name site (depth 2), type rule
     for c1 in TYPE_CTX:
@@ -556,7 +571,11 @@ def catalogue(rng, n_deep):
 # exhaustive small scope for the duplicate check
 # ---------------------------------------------------------------------------
 
-def body_for(op, k):
+def body_for(op, k, name=""):
+    if name.startswith("$$"):
+        return B(["(x: `int`)", "`tstr`", "? `int`"][k % 3])
+    if name.startswith("$"):
+        return B(["`int`", "[`tstr`]", "{k: `tstr`}"][k % 3])
     if op == "//=":
         return B(["(x: `int`)", "`tstr`", "k: `int`"][k % 3])
     if op == "/=":
@@ -583,7 +602,7 @@ def exhaustive_dup():
                 opts.append((n, op))
         k = 0
         for s in seqs(opts, maxlen):
-            rules = [Rule(n, op, body_for(op, i + len(s))) for i, (n, op) in enumerate(s)]
+            rules = [Rule(n, op, body_for(op, i + len(s), n)) for i, (n, op) in enumerate(s)]
             cases.append(Case("exhaustive-dup", rules))
             k += 1
         scope.append("%s: all sequences of 0..%d rules over names %s x syntactically valid operators (%d documents)" % (label, maxlen, names, k))
@@ -609,6 +628,8 @@ def near_misses():
         ("group-increment-then-plain-type", [R("a", "//=", B("(x: `int`)")), R("a", "=", B("`int`"))]),
         ("group-increment-then-plain-type-far", [R("a", "//=", B("(x: `int`)"))] + [R("f%d" % k, "=", B("`int`")) for k in range(12)] + [R("a", "=", B("`int`"))]),
         ("plain-far-apart", [R("a", "=", B("`int`"))] + [R("f%d" % k, "/=", B("`int`")) for k in range(20)] + [R("a", "=", B("`int`"))]),
+        ("late-plain-redefined-late", [R("f%d" % k, "=", B("`int`")) for k in range(10)] + [R("f7", "=", B("`int`"))]),
+        ("late-increment-then-plain", [R("f%d" % k, "=", B("`int`")) for k in range(6)] + [R("h", "//=", B("`int`")), R("f9", "=", B("`h`")), R("h", "=", B("`int`"))]),
         ("plain-then-increments", [R("a", "=", B("`int`")), R("a", "/=", B("`tstr`")), R("a", "//=", B("(x: `int`)")), R("a", "/=", B("`bool`"))]),
         ("only-increments", [R("a", "/=", B("`int`")), R("a", "//=", B("`tstr`")), R("a", "/=", B("`bool`")), R("a", "//=", B("k: `int`"))]),
         ("generic-vs-plain", [R("a", "=", B("`t`"), ["t"]), R("a", "=", B("`int`"))]),
@@ -636,6 +657,9 @@ def near_misses():
         ("param-second-of-two", [R("a", "=", B("{`t` => `u`}"), ["t", "u"]), R("b", "=", B("`a`<`int`, `u`>"))]),
         ("param-in-group-rule", [R("g", "=", B("(k: `t`)"), ["t"]), R("b", "=", B("{`g`<`int`>, `t`}"))]),
         ("param-used-as-own-arg", [R("a", "=", B("`b`<`t`>"), ["t"]), R("b", "=", B("[`u`, `t`]"), ["u"])]),
+        ("param-case-differs", [R("a", "=", B("[`t`, `T`]"), ["t"])]),
+        ("param-case-differs-upper", [R("a", "=", B("{k: `K`, j: `k`}"), ["K"])]),
+        ("param-prefix-of-name", [R("a", "=", B("[`t`, `t1`, `t-x`]"), ["t"])]),
         ("rule-own-name-is-not-param", [R("a", "=", B("[`a`, `t`]"), ["t"])]),
         ("unused-rule-with-undefined", [R("a", "=", B("`int`")), R("unused", "=", B("[`zz`]"))]),
         ("undefined-only-in-later-increment", [R("a", "=", B("`int`")), R("a", "/=", B("`zz`"))]),
